@@ -30,14 +30,16 @@ FLOORS = {
                            "fragment_through_filter": 10, "plain_tilde_fragment": 8,
                            "local_autoescape_block_renders": 500,
                            "loop_exit_through_inner_autoescape_block": 25,
-                           "evalctx_filter_by_name_via_map": 10, "fragment_as_join_delimiter": 10}},
+                           "evalctx_filter_by_name_via_map": 10, "fragment_as_join_delimiter": 10,
+                           "directed_neutral_filter_on_fragment": 50}},
     "thorough": {"evaluations": 50000, "distinct": 6000,
                  "counters": {"outputs_with_entities": 16000, "via_macro": 2000, "via_setblock": 1000,
                               "via_super_or_self": 2000, "via_include": 2000, "via_import_macro": 1000,
                               "fragment_through_filter": 600, "plain_tilde_fragment": 600,
                               "local_autoescape_block_renders": 10000,
                               "loop_exit_through_inner_autoescape_block": 1200,
-                              "evalctx_filter_by_name_via_map": 400, "fragment_as_join_delimiter": 400}},
+                              "evalctx_filter_by_name_via_map": 400, "fragment_as_join_delimiter": 400,
+                              "directed_neutral_filter_on_fragment": 50}},
 }
 
 # every value has a raw metacharacter (over-escaping shows) AND entity-like text
@@ -236,7 +238,42 @@ def feature_counters(ctx, case):
         ctx.count("fragment_as_join_delimiter")
 
 
+def directed_cases():
+    """Every escaping-neutral filter (plain and with its rarely given arguments) applied to every
+    kind of already rendered, markup-safe fragment whose content is data with metacharacters."""
+    N = lambda n: ["name", n]      # noqa: E731
+    C = lambda v: ["const", v]     # noqa: E731
+    T = lambda s: ["text", s]      # noqa: E731
+    filters = [("lower", [], []), ("string", [], []), ("trim", [], []), ("trim", [C(" \n")], []),
+               ("trim", [], [["chars", C(" ")]]), ("default", [C("-")], []), ("default", [C("-"), C(True)], []),
+               ("d", [], []), ("indent", [C(0)], []), ("center", [C(1)], []), ("replace", [C("zq"), C("y")], []),
+               ("safe", [], [])]
+    inner = [T("<"), ["out", N("hd")], T(">")]
+    out = []
+    for fi, (f, a, kw) in enumerate(filters):
+        F = lambda e: ["filter", e, f, a, kw]   # noqa: E731,B023
+        bodies = {
+            "macro-result": [["macro", "dm", [], inner], ["out", F(["call", N("dm"), [], []])]],
+            "caller-result": [["macro", "dw", [], [["out", F(["call", N("caller"), [], []])]]],
+                              ["callblock", [], ["call", N("dw"), [], []], inner]],
+            "set-block-value": [["setblock", "sb", inner], ["out", F(N("sb"))]],
+            "set-block-via-tilde": [["setblock", "sb", inner], ["out", ["bin", "~", F(N("sb")), C("<t>")]]],
+            "macro-result-in-list-join": [["macro", "dm", [], inner],
+                                          ["out", ["filter", ["list", [F(["call", N("dm"), [], []]), C("<x>")]],
+                                                   "join", [C(",")], []]]],
+        }
+        for bi, (bname, body) in enumerate(bodies.items()):
+            out.append({"kind": "stmt", "asts": {"main": body}, "main": "main",
+                        "data": {"hd": HOT[(fi + bi) % len(HOT)]}, "globals": {},
+                        "directed": f + ("(args)" if a or kw else "") + ":" + bname})
+    return out
+
+
 def run(ctx):
+    for i, case in enumerate(directed_cases()):
+        if ctx.mine(i):
+            ctx.count("directed_neutral_filter_on_fragment")
+            check_case(ctx, case, is_async=bool(i % 2))
     rng = ctx.rng("c16")
     opts = stmtgen.Opts(filterblocks=False, fragfilters=True)
     n = 1500 if ctx.tier == "quick" else 40000
